@@ -14,7 +14,7 @@ ENGINES = [
      "serves_properties": ["C01", "C02", "C03", "C04", "C05", "C06", "C07", "C08", "C09", "C10", "C11", "C12", "C13", "C14", "C16", "C17", "C18", "C19", "C20"]},
     {"name": "kani", "path": "/verif/kani",
      "kind_free_text": "Kani 0.68 / CBMC 6.11 assume-assert contract harnesses over the unmodified crate (scratch copy), full-domain symbolic inputs, lazy buffers of symbolic length up to 2^40; counterexamples replayed natively",
-     "serves_properties": ["C01", "C02", "C04", "C05", "C06", "C07", "C08", "C09", "C11", "C13", "C14", "C15", "C17", "C18", "C20"]},
+     "serves_properties": ["C01", "C02", "C04", "C05", "C06", "C07", "C08", "C09", "C11", "C12", "C13", "C14", "C15", "C17", "C18", "C20"]},
     {"name": "native-bounded", "path": "/verif/native",
      "kind_free_text": "bounded stand-in for packet() (n1_packet) and the witness search w_server: the real code run natively over a stated finite input set against an executable copy of the specification (labelled bounded, never counted as proved; the witness search only runs when a proof leg fails or is undecided, and in the thorough tier)",
      "serves_properties": ["C01", "C02", "C03", "C04", "C05", "C06", "C07", "C08", "C09", "C10", "C11", "C12", "C13", "C14", "C16", "C17", "C19", "C20"]},
@@ -107,11 +107,11 @@ CLAIMS = {
         "note": "client_handshake's user-name scan is bounded (scanned region <= 12 bytes) with nom's FindSubstring replaced by its specification (memchr's inline asm is not executable by CBMC). The greeting specification is the byte sequence plus a conformance lemma (decoder facts).",
     },
     "C12": {
-        "engine": "verus",
-        "technique": V + ": Transport::read requires flushed == |wire| (ghost instrumentation), PacketConn::next requires a quiescent writer; every caller must discharge it",
+        "engine": "verus+kani",
+        "technique": V + ": Transport::read requires flushed == |wire| (ghost instrumentation), PacketConn::next requires a quiescent writer; every caller must discharge it; + Kani bounded harnesses: after the TLS upgrade write/flush still reach the socket (PrependedReader, SwitchableConn routing)",
         "design_ref": "DESIGN.md section 6 C12",
         "text": "The only operation that can wait for the peer carries the precondition 'everything written is flushed and nothing is buffered'; next, run and init are proved to establish it at every call (flush after the greeting, after the auth reply, at the end of every command iteration); a complete buffered packet is served without another read.",
-        "note": "Transport contract is the model of the stream; 'answered' per command relies on C03.",
+        "note": "Transport contract is the model of the stream; 'answered' per command relies on C03. Under TLS the Transport seen by the proof is SwitchableConn: that its flush reaches the socket is checked by K7 for the library's own wrappers (bounded, <= 3 bytes); rustls' own buffering is trusted.",
     },
     "C13": {
         "engine": "verus+kani",
